@@ -18,11 +18,15 @@ import (
 
 // chunkReader is a simulated source: it decides how many bytes each Read returns.
 type chunkReader struct {
-	data  []byte
-	mode  int // 0 full, 1 one byte, 2 halves, 3 seeded sizes, 4 full with EOF on the last data
-	rng   *mrand.Rand
-	first bool
-	reads int
+	// during is called once, at read number duringAt: the source "blocks" there and another
+	// task uses the same session in the other direction
+	during   func()
+	duringAt int
+	data     []byte
+	mode     int // 0 full, 1 one byte, 2 halves, 3 seeded sizes, 4 full with EOF on the last data
+	rng      *mrand.Rand
+	first    bool
+	reads    int
 }
 
 func newChunkReader(data []byte, mode int, seed uint64) *chunkReader {
@@ -31,6 +35,11 @@ func newChunkReader(data []byte, mode int, seed uint64) *chunkReader {
 
 func (c *chunkReader) Read(p []byte) (int, error) {
 	c.reads++
+	if c.during != nil && c.reads == c.duringAt {
+		f := c.during
+		c.during = nil
+		f()
+	}
 	if len(c.data) == 0 {
 		return 0, io.EOF
 	}
@@ -61,10 +70,12 @@ func (c *chunkReader) Read(p []byte) (int, error) {
 }
 
 type C06Msg struct {
-	Len  int `json:"len"`
-	Enc  int `json:"enc_mode"` // chunk mode of the source given to Encrypt
-	Dec  int `json:"dec_mode"` // chunk mode of the source given to Decrypt
-	Side int `json:"side"`     // 0: accessory encrypts, 1: accessory decrypts
+	Len    int `json:"len"`
+	Enc    int `json:"enc_mode"` // chunk mode of the source given to Encrypt
+	Dec    int `json:"dec_mode"` // chunk mode of the source given to Decrypt
+	Side   int `json:"side"`     // 0: accessory encrypts, 1: accessory decrypts
+	Dup    int `json:"dup"`      // >0: while the source of this message is at its Dup-th read, the session is used in the other direction
+	DupLen int `json:"dup_len"`
 }
 
 type C06Scenario struct {
@@ -90,7 +101,12 @@ func genC06(rt *rapid.T) interface{} {
 		default:
 			l = rapid.IntRange(0, 40000).Draw(rt, "len")
 		}
-		sc.Msgs = append(sc.Msgs, C06Msg{Len: l, Enc: rapid.IntRange(0, 4).Draw(rt, "em"), Dec: rapid.IntRange(0, 4).Draw(rt, "dm"), Side: rapid.IntRange(0, 1).Draw(rt, "side")})
+		m := C06Msg{Len: l, Enc: rapid.IntRange(0, 4).Draw(rt, "em"), Dec: rapid.IntRange(0, 4).Draw(rt, "dm"), Side: rapid.IntRange(0, 1).Draw(rt, "side")}
+		if rapid.IntRange(0, 3).Draw(rt, "dup") == 0 {
+			m.Dup = rapid.IntRange(1, 6).Draw(rt, "dupat")
+			m.DupLen = rapid.IntRange(1, 1500).Draw(rt, "duplen")
+		}
+		sc.Msgs = append(sc.Msgs, m)
 	}
 	return sc
 }
@@ -132,7 +148,30 @@ func runC06(t *testing.T, sci interface{}) *Outcome {
 			before := ctrA2C
 			want := ref.FrameSeal(a2c, &ctrA2C, payload)
 			src := newChunkReader(payload, m.Enc, sc.Seed+uint64(i))
+			var dupFail string
+			if m.Dup > 0 {
+				// full duplex: while Encrypt waits for its source, a frame is decrypted on the same session
+				src.duringAt = m.Dup
+				src.during = func() {
+					o.Stats["probe.full_duplex"]++
+					other := make([]byte, m.DupLen)
+					rng.Read(other)
+					wire := ref.FrameSeal(c2a, &ctrC2A, other)
+					dr, err := acc.Decrypt(bytes.NewReader(wire))
+					if err != nil {
+						dupFail = fmt.Sprintf("Decrypt of a reference message of %d bytes while Encrypt was reading its source: %v", m.DupLen, err)
+						return
+					}
+					got, _ := io.ReadAll(dr)
+					if !bytes.Equal(got, other) {
+						dupFail = "Decrypt while Encrypt was reading its source returned other bytes"
+					}
+				}
+			}
 			r, err := acc.Encrypt(src)
+			if dupFail != "" {
+				return fail("full-duplex", "msg %d: %s", i, dupFail)
+			}
 			if err != nil {
 				return fail("encrypt-error", "msg %d len %d: Encrypt: %v", i, m.Len, err)
 			}
@@ -154,7 +193,30 @@ func runC06(t *testing.T, sci interface{}) *Outcome {
 			// controller -> accessory: reference seals, hc decrypts from a simulated source
 			wire := ref.FrameSeal(c2a, &ctrC2A, payload)
 			src := newChunkReader(wire, m.Dec, sc.Seed+uint64(i))
+			var dupFail string
+			if m.Dup > 0 {
+				// full duplex: while Decrypt waits for the rest of a frame, a message is encrypted on the same session
+				src.duringAt = m.Dup
+				src.during = func() {
+					o.Stats["probe.full_duplex"]++
+					other := make([]byte, m.DupLen)
+					rng.Read(other)
+					want := ref.FrameSeal(a2c, &ctrA2C, other)
+					er, err := acc.Encrypt(bytes.NewReader(other))
+					if err != nil {
+						dupFail = fmt.Sprintf("Encrypt while Decrypt was reading a frame: %v", err)
+						return
+					}
+					got, _ := io.ReadAll(er)
+					if !bytes.Equal(got, want) {
+						dupFail = fmt.Sprintf("Encrypt of %d bytes while Decrypt was in the middle of a frame differs from the reference framing", m.DupLen)
+					}
+				}
+			}
 			r, err := acc.Decrypt(src)
+			if dupFail != "" {
+				return fail("full-duplex", "msg %d: %s", i, dupFail)
+			}
 			if err != nil {
 				return fail("decrypt-error", "msg %d len %d source mode %d: Decrypt of reference frames: %v", i, m.Len, m.Dec, err)
 			}
